@@ -184,3 +184,12 @@ def same_output(a, b, proj=None):
     if proj is not None and any("map[" in t for t in proj["files"].values()):
         return sorted(a.splitlines()) == sorted(b.splitlines())
     return False
+
+
+def canon_code(body, make_function_op=12):
+    """capture lists of make_function come out of a HashSet: compare them as sets"""
+    return [(op, [a[0]] + sorted(a[1:]) if op == make_function_op and a else list(a)) for op, a in body]
+
+
+def canon_dump(d):
+    return {f: {n: canon_code(b) for n, b in fns.items()} for f, fns in d.items()}
